@@ -127,6 +127,10 @@ private:
         // TODO: make it common with tbb_allocator.cpp
         std::size_t cache_line_alignment = correct_alignment(alignment);
         std::size_t space = correct_size(bytes) + cache_line_alignment;
+        // bytes + alignment must not wrap around
+        if (space < bytes) {
+            tbb::detail::throw_exception(exception_id::bad_alloc);
+        }
         std::uintptr_t base = reinterpret_cast<std::uintptr_t>(m_upstream->allocate(space));
         __TBB_ASSERT(base != 0, "Upstream resource returned nullptr.");
 
